@@ -9,6 +9,8 @@ use pairing::{CurveAffine, CurveProjective};
 use serde_json::{json, Value};
 
 const XS: [&str; 4] = ["xmd-sha256", "xmd-sha512", "xof-shake128", "xof-shake256"];
+/// for the byte-level property also other Merkle-Damgard hashes (digest sizes 28 and 48)
+const XS13: [&str; 6] = ["xmd-sha256", "xmd-sha512", "xof-shake128", "xof-shake256", "xmd-sha224", "xmd-sha384"];
 
 fn chunk(sessions: &mut Vec<Vec<Value>>, ops: &mut Vec<Value>, n: usize) {
     if ops.len() >= n {
@@ -23,9 +25,9 @@ pub fn wl_c13(seed: u64, tier: &str) -> Vec<Vec<Value>> {
     let mut ops = vec![];
     let msg_lens = [0usize, 1, 31, 32, 55, 56, 63, 64, 65, 119, 127, 128, 129, 300];
     let dst_lens = [0usize, 1, 16, 43, 255];
-    for x in XS.iter() {
+    for x in XS13.iter() {
         let is_xmd = x.starts_with("xmd");
-        let b = if *x == "xmd-sha512" { 64 } else { 32 };
+        let b = match *x { "xmd-sha512" => 64, "xmd-sha224" => 28, "xmd-sha384" => 48, _ => 32 };
         let mut lens: Vec<usize> = vec![0, 1, 31, 32, 33, 63, 64, 65, 127, 128, 129, 200, 1000];
         if is_xmd {
             lens.extend_from_slice(&[255 * b - 1, 255 * b, 255 * b + 1, 256 * b, 254 * b + 1]);
